@@ -10,12 +10,24 @@ from runner import PropertyCheck, Broken, Violation
 class Check(PropertyCheck):
     pid = "C20"
     props_module = "Properties.Properties_C20"
-    extra_targets = ["Extract/ExtractEnc.vo"]
+    extra_targets = ["Extract/ExtractEnc.vo", "Extract/ExtractPm.vo"]
+    extra_props = ["Properties.Properties_C20pm"]
     gen_files = enclib.ENC_GEN
     trusted_base = enclib.ENC_TRUSTED + [
-        "OPTIMALITY IS NOT PROVED: each used table of each real block is compared with an independent length-limited optimum "
-        "(package-merge in python, checks/enclib.optimal_limited_cost); that comparison is testing"]
-    assumptions = ["a table's frequencies are those of the symbols of the groups that select it (from the real encoder state)"]
+        "Enc/PmModel.v: hand-written executable model of the labelling loop, sort_alphabet(), weight_add, package_merge() (explicit "
+        "stack count[], all 21 rows of tree[][]) and the per-height length derivation / cost / best-height choice of assign_codes(), "
+        "with bounds-checked arrays and explicit uint32/uint64 arithmetic; tied to encode.c by harness/pm_h.c (#includes the real file, "
+        "ASan+UBSan+asserts): leaf_weight[], the whole tree[21][21], length[] and the returned cost must agree on every generated "
+        "frequency vector (checks/pm_part.py)",
+        "the theorems C20pm_* (optimality among complete codes no longer than the table's longest code, completeness, <= 20 bits, no "
+        "out-of-bounds/underflow/assert) hold for every frequency vector with 2..258 entries and 258 * sum < 2^32 (block size <= 900000 "
+        "gives sum <= 900001); for larger sums the real assign_codes can trip its own assert (C20pm_sum_below_2p32_refuted) - unreachable",
+        "NOT proved: that frequency[t] handed to assign_codes() is the count vector of the groups that finally select table t (the "
+        "last iteration of generate_prefix_code re-assigns selectors before assign_codes: evaluated on the real encoder state of every "
+        "generated block against an independent optimum, checks/enclib.optimal_limited_cost - that part is testing); code[]/base_code[] "
+        "assignment is covered by C01/C02's layout correspondence"]
+    assumptions = ["a table's frequencies are those of the symbols of the groups that select it (from the real encoder state)",
+                   "258 * (sum of a table's frequencies) < 2^32"]
 
     def gen_cases(self):
         quick = self.tier == "quick"
@@ -99,7 +111,16 @@ class Check(PropertyCheck):
                         ntab += 1
                         distinct.add((tuple(freqs[t]), tuple(lens[t])))
         self.ntables = ntab
-        return {"evaluations": len(cases), "distinct_nontrivial": len(distinct),
+        import pm_part
+        try:
+            pm = pm_part.correspond(self) or {}
+        except vlib.BuildError:
+            raise
+        except Exception as e:
+            pm = {"evaluations": 0, "distinct_nontrivial": 0, "rule": "pm_part crashed"}
+            self.broken.append(Broken("correspondence", "pm_part.correspond crashed", repr(e)[:800]))
+        return {"evaluations": len(cases) + int(pm.get("evaluations", 0)), "distinct_nontrivial": len(distinct) + int(pm.get("distinct_nontrivial", 0)),
+                "package_merge_correspondence": {k: v for k, v in pm.items() if k != "samples"},
                 "rule": "G1 inputs plus single-table blocks for alphabet sizes 3..258 with flat/geometric/Fibonacci/spike frequencies and a "
                         "Fibonacci-weighted block that forces codes past 20 bits into the package-merge path; non-trivial = distinct "
                         "(frequency vector, length vector) pairs of USED tables",
